@@ -155,7 +155,11 @@ def ipaddress_from_sdp(sdp: str) -> str:
 
 
 def ipaddress_to_sdp(addr: str) -> str:
-    version = ipaddress.ip_address(addr).version
+    try:
+        version = ipaddress.ip_address(addr).version
+    except ValueError:
+        # a host name, which the parser accepts as well
+        version = 4
     return f"IN IP{version} {addr}"
 
 
